@@ -105,6 +105,22 @@ def build_fsa(aut, model, start):
             for lab, h in nb.items():
                 out[v].setdefault(h, []).append(lab)
         return fsa.FSA(out, start_vertices=[start], graph_dict=False)
+    if route == 3:
+        # built with placeholder labels, then relabelled in place (as CoxeterGroup.automaton
+        # does) - the enumeration must see the new labels in every view it walks
+        labs = sorted({lab for nb in model.values() for lab in nb}, key=repr)
+        ph = {lab: ("~%d" % i) for i, lab in enumerate(labs)}
+        d = {v: {ph[lab]: h for lab, h in nb.items()} for v, nb in model.items()}
+        F = fsa.FSA(d, start_vertices=[start])
+        F.rename_generators({p_: lab for lab, p_ in ph.items()}, inplace=True)
+        return F
+    if route == 4:
+        # the same through the copying form of rename_generators
+        labs = sorted({lab for nb in model.values() for lab in nb}, key=repr)
+        ph = {lab: ("~%d" % i) for i, lab in enumerate(labs)}
+        d = {v: {ph[lab]: h for lab, h in nb.items()} for v, nb in model.items()}
+        return fsa.FSA(d, start_vertices=[start]).rename_generators(
+            {p_: lab for lab, p_ in ph.items()}, inplace=False)
     F = fsa.FSA({}, start_vertices=[start])
     F.add_vertices(list(model))
     F.add_edges([(v, h, lab) for v, nb in model.items() for lab, h in nb.items()])
@@ -365,7 +381,7 @@ def automaton_case(draw, labels, max_n=8, dense=False):
     start = draw(st.integers(0, n - 1))
     return dict(n=n, start=start, labels=list(labels), edges=edges,
                 vn=draw(st.sampled_from(["int", "int", "str"])),
-                route=draw(st.sampled_from([0, 0, 1, 2])), hide=draw(st.booleans()))
+                route=draw(st.sampled_from([0, 0, 1, 2, 3, 3, 4])), hide=draw(st.booleans()))
 
 
 def max_len_for(model, cap, hard=7):
